@@ -5,7 +5,7 @@ from __future__ import annotations
 import ast
 
 from ..report import Cx, Ob, describe, obligation
-from ..rules import API, CONV, CURIE_SIDE, URI_SIDE, Prov, _container_fields, fewer_than_two, guard_atoms, pair_compare_cover, where
+from ..rules import API, CONV, CURIE_SIDE, URI_SIDE, Prov, _container_fields, fewer_than_two, guard_atoms, pair_compare_cover, construct_of_plain_strings, where
 from ..summ import Ctx, describe_path
 from ..terms import callee_name, is_const, op, show, subterms
 
@@ -167,8 +167,19 @@ def _order_views(inner):
             inner = inner[4][1][0][1]  # own = [*records]; own.sort(...)
         elif op(inner) == "slice" and is_const(inner[2], None) and is_const(inner[3], None):
             inner = inner[1]
+        elif op(inner) == "comp" and inner[1] in ("list", "gen") and len(inner[3]) == 1 and not inner[3][0][2] and _element_copy(inner[2], inner[3][0][0]):
+            inner = inner[3][0][1]  # [r.model_copy(deep=True) for r in records]: every record, as a copy
         else:
             return inner
+
+
+def _element_copy(elt, var) -> bool:
+    """``elt`` is the loop variable itself or a full copy of it (model_copy without update, copy / deepcopy)."""
+    if elt == var:
+        return True
+    if op(elt) == "call" and op(elt[1]) == "attr" and elt[1][1] == var and elt[1][2] in ("model_copy", "copy") and not elt[2] and "update" not in dict(elt[3]):
+        return True
+    return op(elt) == "call" and op(elt[1]) == "ext" and elt[1][1] in ("copy.copy", "copy.deepcopy") and elt[2] == (var,)
 
 
 def _pair_mode(prov: Prov, s) -> tuple[str, tuple | None, tuple | None, str]:
@@ -386,7 +397,8 @@ def check_detector(cx: Cx, ob: Ob, cls: str, fn, side: set) -> None:
             return
         ob.undecide(f"pair enumeration of the {cls} detector not recognised")
         return
-    k_ins, k_look, desc = idx
+    k_ins, k_look, desc = idx[:3]
+    _self_clash(ob, cls, fn, s, idx[3] if len(idx) > 3 else None)
     if side - k_ins:
         ob.violate(fn.qualname, fn.where, f"the {cls} detector's index holds only {sorted(k_ins)}: a clash between two records on {sorted(side - k_ins)} is never seen", witness=desc, detail="index-cover:" + "+".join(sorted(side - k_ins)))
     if side - k_look:
@@ -430,6 +442,11 @@ def _index_form(cx: Cx, s, prov: Prov, side: set):
                     k_ins |= {f for r, f in prov.fields(ev.a[2]) if r != "?"}
                 elif ev.kind == "expr" and callee_name(ev.a) in ("add", "setdefault") and ev.a[2]:
                     k_ins |= {f for r, f in prov.fields(ev.a[2][0]) if r != "?"}
+            # `first = idx.setdefault(key, owner)`: the insertion is inside a binding
+            for t, _, _ in s.all_terms():
+                for c in subterms(t):
+                    if op(c) == "call" and op(c[1]) == "attr" and c[1][1] == cont and c[1][2] == "setdefault" and len(c[2]) == 2:
+                        k_ins |= {f for r, f in prov.fields(c[2][0]) if r != "?"}
         k_look = set()
         for t, _, _ in s.all_terms():
             for c in subterms(t):
@@ -440,8 +457,55 @@ def _index_form(cx: Cx, s, prov: Prov, side: set):
                 if op(c) == "call" and op(c[1]) == "attr" and c[1][1] == cont and c[1][2] in ("get", "setdefault") and c[2]:
                     k_look |= {f for r, f in prov.fields(c[2][0]) if r != "?"}
         if k_ins & side or k_look & side:
-            best = (k_ins, k_look, f"index {show(cont)[:90]}")
+            best = (k_ins, k_look, f"index {show(cont)[:90]}", cont)
     return best
+
+
+def _self_clash(ob: Ob, cls: str, fn, s, cont) -> None:
+    """An index filled WHILE a record's own names are looked up in it: a name the record lists twice (a repeated
+    synonym is legal) finds the entry the record has just made and is reported as a clash of the record with
+    itself - unless the report compares the owner found with the record at hand, or the names are de-duplicated."""
+    if cont is None:
+        return
+    fills, reports = [], []
+    for ev, ctx in s.walk():
+        ts = [x for t in (ev.a, ev.b) if isinstance(t, tuple) for x in subterms(t)]
+        if ev.kind == "store" and op(ev.a) == "item" and ev.a[1] == cont:
+            fills.append((ev, ctx))
+        elif any(op(x) == "call" and op(x[1]) == "attr" and x[1][1] == cont and x[1][2] in ("setdefault", "add") for x in ts):
+            fills.append((ev, ctx))
+        if any(op(x) == "call" and op(x[1]) == "cls" and x[1][1].endswith(".DuplicateSummary") for x in ts):
+            reports.append((ev, ctx))
+    for rev, rctx in reports:
+        if not rctx.loops:
+            continue
+        inner = rctx.loops[-1]
+        if not any(fctx.loops and fctx.loops[-1].a == inner.a and fctx.loops[-1].line == inner.line for _, fctx in fills):
+            continue  # the index is complete (or holds only earlier records) when it is probed
+        it = inner.b
+        if op(it) == "call" and it[1] in (("builtin", "set"), ("builtin", "frozenset")) or (op(it) == "call" and callee_name(it) == "fromkeys") or (op(it) == "comp" and it[1] == "set"):
+            continue
+        owner_checked = False
+        for g in rctx.guards:
+            if g.kind != "guard":
+                continue
+            for c in subterms(g.a):
+                if op(c) == "cmp" and c[1] in ("!=", "is not", "==", "is"):
+                    sides = (c[2], c[3])
+                    from_index = [x for x in sides if any(y == cont for y in subterms(x))]
+                    current = [x for x in sides if x not in from_index and not is_const(x)]
+                    if from_index and current:
+                        owner_checked = True
+        if owner_checked:
+            ob.site(f"{where(fn, rev.line)} {fn.qualname}", "single-pass index: the owner found is compared with the record at hand")
+            continue
+        ob.violate(
+            fn.qualname,
+            where(fn, rev.line),
+            f"the {cls} detector fills its index while it looks a record's own names up in it and reports every hit: a record that lists one name twice (a repeated synonym is legal) is reported as clashing with itself, so a collection in which no name is claimed by two records is rejected",
+            witness="Converter([Record(prefix='a', uri_prefix='u', prefix_synonyms=['x', 'x'])]) raises DuplicatePrefixes",
+            detail="self-clash",
+        )
 
 
 @obligation("C04-D2", "MATRIX: both duplicate detectors enumerate all unordered pairs of records and compare the full {canonical, synonyms} x {canonical, synonyms} cover of their own side", floor=2)
@@ -547,6 +611,9 @@ def d3(cx: Cx, ob: Ob) -> None:
         for c, ev, _ in fs.calls():
             f = c[1]
             if op(f) == "attr" and op(f[1]) == "cls" and f[1][1].endswith(".Record") and f[2] in ("model_construct", "construct"):
+                if construct_of_plain_strings(c):
+                    ob.site(f"{where(fn, ev.line)} {fn.qualname}", "model_construct of the two canonical fields as plain strings: no synonym list the skipped validators could object to")
+                    continue
                 ob.violate(fn.qualname, where(fn, ev.line), f"{fn.name} builds a Record with `{f[2]}`, which skips the validators: a record may then list its own canonical prefix / URI prefix among its synonyms", detail="model_construct")
             if op(f) == "cls" and f[1].endswith(".Record"):
                 n += 1
